@@ -924,7 +924,12 @@ class MonC10(object):
                         if not tr.auto_flag and d != 0.0:
                             tr.violate("C10", "C10/auto-progress-flag-off",
                                        "step %d (project absence, flag off): automatic task %s progressed by %r" % (snap.step, t.ID, d), task=t)
-                        if tr.auto_flag and a.tstate[t] == TS.WORKING:
+                        up = tr.last.get("updated")
+                        startable = (t.target_component is None and up is not None
+                                     and up.tstate.get(t) in (TS.READY, TS.WORKING))
+                        if tr.auto_flag and (a.tstate[t] == TS.WORKING or startable):
+                            # flag set: a WORKING automatic task - and one that is READY and not bound
+                            # to a component (nothing else it could wait for) - progresses at this step
                             tr.counters["C10.auto_progress_checks"] += 1
                             if abs(d - t.work_amount_progress_of_unit_step_time) > TOL:
                                 tr.violate("C10", "C10/auto-no-progress-flag-on",
